@@ -33,6 +33,9 @@ elab "wp_step" : tactic => withMainContext do
   let m := t.getAppArgs[1]!
   match m.getAppFn with
   | .const n _ =>
+    if n == ``RegexVerif.Parser.ignoreErr then
+      evalTactic (← `(tactic| apply wp_ignoreErr))
+      return
     let pre := n.getPrefix
     let base := n.getString!
     let mut found : Option (Name × Name × Bool) := none
@@ -69,6 +72,11 @@ macro_rules
           | ((try dsimp only [PS.frame] at *); simp_all; done)
           | (intro hN; (try dsimp only at *); simp_all; done))
       | (dsimp only at *; omega)
+      | (refine ⟨?_, ?_, ?_⟩ <;> first
+          | omega
+          | (dsimp only at *; omega)
+          | (intro hN; solve_by_elim)
+          | (intro hN; (try dsimp only at *); simp_all; done))
       | adv)
 
 /-- symbolic execution of a scanner body: split conjunctions, introduce (and reduce) hypotheses, step,
@@ -77,7 +85,7 @@ syntax "wp_run" : tactic
 macro_rules
   | `(tactic| wp_run) => `(tactic| repeat' (first
       | with_reducible apply And.intro
-      | (intro h; try simp only [PS.frame, Prod.mk.injEq] at h)
+      | (intro h; try simp only [PS.frame, Prod.mk.injEq, decide_eq_true_eq, decide_eq_false_iff_not, beq_iff_eq, bne_iff_ne, Nat.add_zero] at h)
       | wp_step
       | split
       | advf2))
